@@ -1,6 +1,6 @@
 (* C07 — Chunk store round trip and chunk addressing.  Only statements here. *)
 From Coq Require Import ZArith List Bool.
-From KV Require Import Base.Sx Gen.Generated Model.Chunks Model.ChunksMulti Proofs.ChunksP Proofs.ChunksRtP Proofs.ChunksPruneP Proofs.ChunksPrunedReadP Proofs.ChunksTopP Proofs.ChunksGenP Proofs.ChunksMultiP.
+From KV Require Import Base.Sx Gen.Generated Model.Chunks Model.ChunksMulti Proofs.ChunksP Proofs.ChunksRtP Proofs.ChunksPruneP Proofs.ChunksPrunedReadP Proofs.ChunksTopP Proofs.ChunksGenP Proofs.ChunksMultiP Model.ChunksGenPy Proofs.ChunksGenPyP.
 Import ListNotations.
 Open Scope Z_scope.
 
@@ -298,3 +298,100 @@ Example C07_generate_chunks_examples :
      = [repeat 1 10; repeat 819 10 ++ [2]; [144]]
   /\ generate_chunks [10; 7] 13 2 [0%nat; 1%nat] true [(0%nat, 5)] = [repeat 1 10; [4; 3]].
 Proof. vm_compute. auto. Qed.
+
+(* ---- generate_chunks at the level of its PUBLIC arguments ---- *)
+(* gen_chunks_py (Model/ChunksGenPy.v) follows the source statement by statement: defaults of dims_to_split and
+   max_dim_elements, normalisation of negative (NumPy-style) axis numbers in dims_to_split and in the keys of
+   max_dim_elements (strictest limit wins), IndexError where an entry that names no axis is actually used, the break
+   of the split loop.  The axis normalisation, the merge of limits, the three comparison operators and the two
+   rounding directions are the definitions cs_gc_* re-translated from the source at every run.
+   Domain of the theorems (gc_domain_py): shape entries > 0, max_chunk_size / itemsize = mn / md > 0, limits > 0;
+   dims_to_split and the keys of max_dim_elements are ARBITRARY integers (any order, repetitions, several spellings). *)
+
+(* Whenever generate_chunks returns, the result is the greedy split on the axes nominated by dims_to_split read the
+   NumPy way (entries that name no axis nominate nothing) with the limits merged per axis. *)
+Theorem C07_generate_chunks_py_refines : forall shape mn md dims pow2 mde out,
+  gen_chunks_py shape mn md dims pow2 mde = Ok out ->
+  out = generate_chunks shape mn md (effective_dims (List.length shape) dims) pow2 (limits_of shape mde).
+Proof. exact gen_py_refines. Qed.
+Print Assumptions C07_generate_chunks_py_refines.
+
+(* ... and satisfies every clause of the property: exact tiling; every limit whose key names a nominated axis is
+   respected, however the axis is spelled in either argument; all but the last chunk per axis are powers of two if
+   requested; the size budget is met or every nominated axis has chunk size 1; no other axis is split. *)
+Theorem C07_generate_chunks_py_ok : forall shape mn md dims pow2 mde out,
+  gc_domain_py shape mn md mde = true ->
+  gen_chunks_py shape mn md dims pow2 mde = Ok out ->
+  chunks_ok_py shape mn md dims pow2 mde out = true.
+Proof. exact py_chunks_ok. Qed.
+Print Assumptions C07_generate_chunks_py_ok.
+
+(* the limits clause on its own, spelled out: key and nominated entry may spell the axis differently *)
+Theorem C07_generate_chunks_py_dim_caps : forall shape mn md dims pow2 mde out,
+  gc_domain_py shape mn md mde = true ->
+  gen_chunks_py shape mn md dims pow2 mde = Ok out ->
+  caps_ok_py (List.length shape) (effective_dims (List.length shape) dims) (mde0_of mde) out = true.
+Proof. exact py_caps. Qed.
+Print Assumptions C07_generate_chunks_py_dim_caps.
+
+(* totality: if every entry of dims_to_split names an axis (-ndim .. ndim-1) the function returns; the only failure
+   there is, is the IndexError of an entry that names no axis *)
+Theorem C07_generate_chunks_py_total : forall shape mn md dims pow2 mde,
+  all_axes_valid (List.length shape) dims = true ->
+  exists out, gen_chunks_py shape mn md dims pow2 mde = Ok out.
+Proof. exact gen_py_total. Qed.
+Print Assumptions C07_generate_chunks_py_total.
+
+Theorem C07_generate_chunks_py_only_index_error : forall shape mn md dims pow2 mde e,
+  gen_chunks_py shape mn md dims pow2 mde = Err e ->
+  e = EIndex /\ all_axes_valid (List.length shape) dims = false.
+Proof. exact gen_py_err. Qed.
+Print Assumptions C07_generate_chunks_py_only_index_error.
+
+(* the result is a function of WHICH axes are nominated / limited, not of how they are spelled: normalising the
+   spelling of every entry and key changes nothing (not even whether an IndexError is raised), and two calls that
+   nominate the same axes in the same order agree *)
+Theorem C07_generate_chunks_py_spelling : forall shape mn md dims pow2 mde,
+  let n := List.length shape in
+  gen_chunks_py shape mn md (Some (norm_dims n dims)) pow2
+                (Some (map (fun kv => (cs_gc_norm_axis (Z.of_nat n) (fst kv), snd kv)) mde))
+  = gen_chunks_py shape mn md (Some dims) pow2 (Some mde).
+Proof. exact gen_py_spelling. Qed.
+Print Assumptions C07_generate_chunks_py_spelling.
+
+Theorem C07_generate_chunks_py_same_axes : forall shape mn md d1 d2 pow2 mde o1 o2,
+  effective_dims (List.length shape) d1 = effective_dims (List.length shape) d2 ->
+  gen_chunks_py shape mn md d1 pow2 mde = Ok o1 -> gen_chunks_py shape mn md d2 pow2 mde = Ok o2 -> o1 = o2.
+Proof. exact gen_py_same_axes. Qed.
+Print Assumptions C07_generate_chunks_py_same_axes.
+
+(* the defaults: None = all dimensions in order, no limits *)
+Theorem C07_generate_chunks_py_defaults : forall shape mn md pow2,
+  gen_chunks_py shape mn md None pow2 None
+  = gen_chunks_py shape mn md (Some (default_dims (List.length shape))) pow2 (Some []).
+Proof. exact gen_py_defaults. Qed.
+Print Assumptions C07_generate_chunks_py_defaults.
+
+(* non-vacuity.  (1) the input of seeded change C07-6: axis -3 nominated and limited to 3;  (2) axis 2 nominated as -1,
+   limited under key 2 (finding C07-F5: the unrepaired code ignored the limit);  (3) two spellings of one axis with
+   different limits: the strictest wins;  (4) an entry that names no axis: harmless while the budget is met before it
+   is reached (katdal's test_max_dim_elements_ignore), IndexError otherwise;  (5) the spec rejects the scheme the
+   unrepaired code returned for (2). *)
+Example C07_generate_chunks_py_examples :
+  gen_chunks_py [10; 8192; 144] 94371840 8 (Some [-3]) false (Some [(-3, 3)]) = Ok [[3; 3; 3; 1]; [8192]; [144]]
+  /\ gen_chunks_py [4; 6; 50] 60000 4 (Some [-1]) false (Some [(2, 16)]) = Ok [[4]; [6]; [16; 16; 16; 2]]
+  /\ gen_chunks_py [4; 6; 50] 6000 4 (Some [-1; 2]) false (Some [(-1, 4); (2, 8)])
+     = Ok [[4]; [6]; [4; 4; 4; 4; 4; 4; 4; 4; 4; 4; 4; 4; 2]]
+  /\ gen_chunks_py [10; 7] 13 2 (Some [0; 17]) true (Some [(0, 5)]) = Err EIndex
+  /\ gen_chunks_py [10; 7] 100 2 (Some [0; 17]) true (Some [(0, 5)]) = Ok [[4; 4; 2]; [7]]
+  /\ gen_chunks_py [10; 7] 13 2 None true (Some [(0, 5)]) = Ok [repeat 1 10; [4; 3]]
+  /\ chunks_ok_py [4; 6; 50] 60000 4 (Some [-1]) false (Some [(2, 16)]) [[4]; [6]; [50]] = false
+  /\ chunks_ok_py [4; 6; 50] 60000 4 (Some [-1]) false (Some [(2, 16)]) [[4]; [6]; [16; 16; 16; 2]] = true.
+Proof. vm_compute. repeat split; reflexivity. Qed.
+
+(* outside the domain (finding C07-F6): a NEGATIVE limit is not rejected; the scheme returned has no chunk at all on
+   that axis and does not tile the array *)
+Example C07_generate_chunks_negative_limit_refuted :
+  gen_chunks_py [4; 6; 50] 600000 4 (Some [0]) false (Some [(0, -1)]) = Ok [[]; [6]; [50]]
+  /\ tiles_ok [4; 6; 50] [[]; [6]; [50]] = false.
+Proof. vm_compute. split; reflexivity. Qed.
